@@ -26,6 +26,8 @@ def gen(rnd, k):
         others = [s for s in S["stocks"] if s["delisted"] is None]
         if dl and others:
             S["trf"][dl[0]["id"]] = {"successor": others[0]["id"], "share_conversion_ratio": rnd.choice([0.5, 1.0, 2.0, 0.3276])}
+    if k % 6 == 5:
+        S["_old_div_layout"] = True        # dividend tables without the book_closure_date column
     cfgk = trading.gen_config(rnd, S, {"p_reinvest": 0.4, "p_init_pos": 0.2})
     return S, cfgk
 
